@@ -486,40 +486,9 @@ func runUnsat(c *Ctx) {
 					}
 				}
 				rendered = onlyLoop
-				// its text goes (via Fprintf) into a buffer whose String() reaches the return value of Error
-				for _, u := range core.Users(cl) {
-					st, ok := u.(*ssa.Store)
-					if !ok {
-						continue
-					}
-					ia2, ok := st.Addr.(*ssa.IndexAddr)
-					if !ok {
-						continue
-					}
-					al, _ := ia2.X.(*ssa.Alloc)
-					if al == nil {
-						continue
-					}
-					for _, ar := range *al.Referrers() {
-						sl, ok := ar.(*ssa.Slice)
-						if !ok {
-							continue
-						}
-						for _, su := range *sl.Referrers() {
-							fp, ok := su.(*ssa.Call)
-							if !ok || core.CalleeName(fp.Common()) != "fmt.Fprintf" {
-								continue
-							}
-							buf := up(fp.Common().Args[0])
-							core.Instrs(em, func(in2 ssa.Instruction) {
-								if sc, ok := in2.(*ssa.Call); ok && strings.HasSuffix(core.CalleeName(sc.Common()), "bytes.Buffer).String") && core.Strip(sc.Common().Args[0]) == buf {
-									if reachesReturn(sc, em) {
-										flows = true
-									}
-								}
-							})
-						}
-					}
+				// its text reaches the returned message (interprocedural may-flow: through writers, builders and helpers)
+				if p.MayFlowToReturn([]ssa.Value{cl}, em) {
+					flows = true
 				}
 			})
 		}
